@@ -379,6 +379,84 @@ def work(case):
     return outs
 
 
+PSY_KERNEL = """module vkern_mod
+  use argument_mod
+  use fs_continuity_mod
+  use kernel_mod
+  use constants_mod
+  implicit none
+  type, extends(kernel_type) :: vkern_type
+     type(arg_type), dimension(2) :: meta_args = (/ &
+          arg_type(gh_field, gh_real, gh_readwrite, w3), &
+          arg_type(gh_field, gh_real, gh_read, w2) &
+          /)
+     integer :: operates_on = cell_column
+   contains
+     procedure, nopass :: code => vkern_code
+  end type vkern_type
+contains
+  subroutine vkern_code()
+  end subroutine vkern_code
+end module vkern_mod
+"""
+
+
+def work_psy(job):
+    """PSy-layer regions (names come from PSyDataTrans.get_unique_region_name): an LFRic invoke calling one
+    kernel several times; every loop gets its own region, from one re-used or from fresh transformation
+    objects; the (module, region) names passed to PreStart must be pairwise distinct"""
+    import re
+    import shutil
+    import tempfile
+    from psyclone.parse.algorithm import parse
+    from psyclone.psyGen import PSyFactory
+    from psyclone.psyir.nodes import Loop
+    tname, mode, ncalls = job
+    key = {"unit": tname, "template": "psy-layer regions", "params": {"mode": mode, "ncalls": ncalls}}
+    d = tempfile.mkdtemp(prefix="c28_")
+    try:
+        with open(os.path.join(d, "vkern_mod.f90"), "w", encoding="utf-8") as fh:
+            fh.write(PSY_KERNEL)
+        calls = ", ".join(f"vkern_type(f{i}, g)" for i in range(ncalls))
+        with open(os.path.join(d, "alg.f90"), "w", encoding="utf-8") as fh:
+            fh.write("program alg\n  use field_mod, only: field_type\n  use vkern_mod, only: vkern_type\n  implicit none\n"
+                     "  type(field_type) :: g, " + ", ".join(f"f{i}" for i in range(ncalls)) +
+                     f"\n  call invoke( {calls} )\nend program alg\n")
+        try:
+            _, info = parse(os.path.join(d, "alg.f90"), api="dynamo0.3", kernel_paths=[d])
+            psy = PSyFactory("dynamo0.3", distributed_memory=False).create(info)
+            sched = psy.invokes.invoke_list[0].schedule
+            if tname == "LFRicExtractTrans":
+                from psyclone.domain.lfric.transformations import LFRicExtractTrans as T
+            else:
+                T = trans_classes()[tname]
+            import contextlib
+            import io
+            shared = T()
+            with contextlib.redirect_stdout(io.StringIO()):     # (module-manager messages)
+                for lp in list(sched.walk(Loop)):
+                    (shared if mode == "same" else T()).apply(lp)
+                txt = str(psy.gen)
+        except Exception as e:  # pylint: disable=broad-except
+            nm = type(e).__name__
+            return [{"key": key, "status": "refused" if "Transformation" in nm or "Generation" in nm else
+                     "psyclone_error", "why": f"{nm}: {e}"[:300]}]
+    finally:
+        shutil.rmtree(d, ignore_errors=True)
+    flat = re.sub(r"&\s*\n\s*&?", "", txt)
+    names = re.findall(r"%PreStart\(\s*\"([^\"]*)\"\s*,\s*\"([^\"]*)\"", flat)
+    o = {"key": key, "nontrivial": True, "h": tv.text_hash(txt), "solver_s": 0.0, "reach": "sat"}
+    if len(names) != ncalls:
+        o.update(status="unsupported", why=f"{len(names)} PreStart calls for {ncalls} regions")
+    elif len(set(names)) != len(names):
+        dup = sorted(n for n in set(names) if names.count(n) > 1)
+        o.update(status="sat_replayed", diff=f"two regions of one invoke share the name {dup[0]}",
+                 replay_text=f"! PreStart names: {names}\n" + txt)
+    else:
+        o["status"] = "unsat"
+    return [o]
+
+
 def main():
     tier = core.tier()
     chk = core.Check(PROP, "model_checking",
@@ -390,6 +468,9 @@ def main():
     for c in cases:
         c["K"], c["E"] = K, E
     results = core.pmap(work, cases)
+    results += core.pmap(work_psy, [(t, mode, n) for t in ("ProfileTrans", "LFRicExtractTrans", "NanTestTrans",
+                                                          "ReadOnlyVerifyTrans")
+                                    for mode in ("same", "fresh") for n in (2, 3)])
     flat = []
     for r in results:
         flat.extend([r] if isinstance(r, tuple) else r)
